@@ -33,16 +33,16 @@ type fmtJudge struct {
 }
 
 type fspec struct {
-	verb    byte
-	flags   string // subset of "+-# 0" in canonical order
-	width   int    // -1 absent
-	prec    int    // -1 absent
-	plus    bool
-	minus   bool
-	sharp   bool
-	space   bool
-	zero    bool
-	spec    string // without '%'
+	verb  byte
+	flags string // subset of "+-# 0" in canonical order
+	width int    // -1 absent
+	prec  int    // -1 absent
+	plus  bool
+	minus bool
+	sharp bool
+	space bool
+	zero  bool
+	spec  string // without '%'
 }
 
 func makeSpec(verb byte, flagBits int, width, prec int) fspec {
